@@ -202,6 +202,16 @@ func (r *rtRun) doStep(label string, hasChoice bool, act func()) bool {
 		return false
 	}
 	obsI := r.obs()
+	if parked, point, _, fin := r.actors["mon"].status(); !parked && !fin && point != "top" && point != "" && r.monBlockedAt == "" {
+		// everything is quiescent and the monitor is neither parked at a hook nor waiting in its top-level
+		// select: it is blocked inside the step that follows `point`
+		r.monBlockedAt = fmt.Sprintf("%s (step %d, %s)", point, r.stepNo, obsI)
+	}
+	if len(r.doneOK) == r.nsrc && !r.rootCancelled && r.monAfterAllDone == "" {
+		if parked, point, _, _ := r.actors["mon"].status(); parked && point == "top" {
+			r.monAfterAllDone = fmt.Sprintf("step %d (%s)", r.stepNo, obsI)
+		}
+	}
 	if r.mismatch != "" {
 		// the model has already disagreed: continue on the implementation alone so that the
 		// shutdown phase and the direct oracles can turn the disagreement into a concrete violation
@@ -539,6 +549,12 @@ func (r *rtRun) perform(rng *RNG, a rtAction, cfg rtConfig) bool {
 		res := a.c.result
 		r.logf("client %d %s returned %s", a.c.id, a.c.op.Kind, res)
 		r.returns = append(r.returns, rtReturn{client: a.c.id, op: a.c.op, res: res, step: r.stepNo})
+		if a.c.op.Kind == "done" && res == "nil" {
+			if r.doneOK == nil {
+				r.doneOK = map[int]bool{}
+			}
+			r.doneOK[a.c.op.Src] = true
+		}
 		if a.c.op.Kind == "unregister" && res == "unregTrue" {
 			if _, ok := r.unregDone[a.c.op.H]; !ok {
 				r.unregDone[a.c.op.H] = r.retStep(a.c)
